@@ -174,6 +174,12 @@ def check_table(chk, t, names, label, spec, do_write=True, do_repr=True):
 			if not g.ok or g.value is not cols[first]:
 				chk.fail("t[stored name] is the first column with that name", f"accessor/string-index/{'raises' if not g.ok else 'wrong-column'}/{tag}", f"{spec!r}: t[{nm!r}] -> {short(g, 80)}; first occurrence is column {first}; names {stored!r}")
 				return False
+			if nrows and nm != "":
+				# the two-axis spelling with an integer row is the same string indexing
+				g2 = call(lambda: t[nrows - 1, nm])
+				if not g2.ok or column_of_value(g2.value) != first:
+					chk.fail("t[i, stored name] reads the first column with that name", f"accessor/string-index-2d/{'raises' if not g2.ok else 'wrong-column'}/{tag}", f"{spec!r}: t[{nrows - 1}, {nm!r}] -> {g2!r}; first occurrence is column {first}; names {stored!r}")
+					return False
 	if t.column_names() != list(names):
 		chk.fail("sanitisation and accessor operations never alter the stored names", f"accessor/stored-names-changed/{tag}", f"{spec!r}: {t.column_names()!r}")
 		return False
